@@ -271,7 +271,7 @@ fn json_element(depth: u32) -> BoxedStrategy<String> {
     proptest::collection::vec(member, 0..5).prop_map(|m| format!("{{{}}}", m.join(","))).boxed()
 }
 
-fn json_dataset(depth: u32) -> BoxedStrategy<String> {
+pub fn json_dataset(depth: u32) -> BoxedStrategy<String> {
     let key = prop_oneof![
         6 => (any::<u16>(), any::<u16>()).prop_map(|(g, e)| format!("\"{g:04X}{e:04X}\"")),
         1 => Just("\"0010001\"".to_string()),
